@@ -237,6 +237,7 @@ type Item struct {
 }
 
 type VC struct {
+	freshGhosts [][2]string // havoced ghost components waiting for their 'zero beyond the allocation counter' fact
 	splitVars []string // reach conditions of named calls (case-split candidates)
 	constDone map[string]bool
 	w        *World
@@ -468,6 +469,9 @@ func (vc *VC) hfresh(h *Heap, comp string) string {
 	sort := vc.compSort[comp]
 	n := vc.fresh(comp+"@h", sort)
 	vc.wellFormedComp(comp, n)
+	if strings.HasPrefix(comp, "G$") {
+		vc.freshGhosts = append(vc.freshGhosts, [2]string{comp, n})
+	}
 	h.m[comp] = n
 	return n
 }
